@@ -1110,7 +1110,7 @@ def run(ctx):
                           no_input=True)
     rng = random.Random(ctx.seed)
     # thorough sizes: about a third of the first sizing, so that the complete set of 32 configurations finishes in
-    # roughly 25 minutes on 16 idle cores (the first sizing needed about 90)
+    # roughly 15-20 minutes on 16 idle cores (the first sizing needed about 90)
     q = ctx.quick()
     PIECE_LIMIT_MS["v"] = 15000 if q else 30000   # no input of the unchanged tree hangs; a 10^7-frame recursion takes 5-6 s
 
@@ -1124,7 +1124,7 @@ def run(ctx):
 
     # 2. whole programs
     b = Batch("prog")
-    for _ in range(60 if q else 160):
+    for _ in range(60 if q else 100):
         src, feats = gen_program(rng, 3 if q else 4)
         for f in feats:
             stats["features"][f] = stats["features"].get(f, 0) + 1
@@ -1140,7 +1140,7 @@ def run(ctx):
     b.nospec = True
     pm_dir = os.path.join(ctx.scratch, "mods")
     os.makedirs(pm_dir, exist_ok=True)
-    want, tries = (40 if q else 140), 0
+    want, tries = (40 if q else 80), 0
     while len(b.items) < want and tries < want * 6:
         tries += 1
         src, feats = gen_program(rng, 3 if q else 4)
@@ -1155,11 +1155,11 @@ def run(ctx):
     batches.append(b)
 
     # 3. lowered-core programs: model value (evalIR, with and without the model's inlining) = value under every configuration
-    batches.append(frag_batch(rng, 36 if q else 90, stats, ctx))
+    batches.append(frag_batch(rng, 36 if q else 60, stats, ctx))
 
     # 4. whole-language histories: main stream (outside the classes of the findings), the K02a stream (random +
     #    directed patterns) and the K02b patterns
-    for stream, n in (("main", 40 if q else 110), ("k02a", 12 if q else 24)):
+    for stream, n in (("main", 40 if q else 70), ("k02a", 12 if q else 24)):
         b = Batch("hist-" + stream)
         for k in range(n):
             if stream == "k02a" and k % 2 == 0:
@@ -1180,7 +1180,7 @@ def run(ctx):
 
     # 4b. programs over user modules (STEEL_MODULE_INLINE); the reference semantics has no modules
     moddir = os.path.join(ctx.scratch, "mods")
-    for stream, n in (("main", 14 if q else 45), ("k02c", 6 if q else 12)):
+    for stream, n in (("main", 14 if q else 30), ("k02c", 6 if q else 12)):
         b = Batch("mod-" + stream)
         b.nospec = True
         for _ in range(n):
@@ -1192,7 +1192,7 @@ def run(ctx):
     # 4c. operand-type coverage of the native tier (no reference semantics: bignums, floats, rationals)
     b = Batch("jitops")
     b.nospec = True
-    for _ in range(20 if q else 70):
+    for _ in range(20 if q else 40):
         h = gen_jitops_program(rng)
         stats["features"]["jit-operand-types"] = stats["features"].get("jit-operand-types", 0) + 1
         b.add(h["pieces"])
@@ -1202,7 +1202,7 @@ def run(ctx):
     b = Batch("jitops-as-module")
     b.nospec = True
     import hashlib
-    for _ in range(10 if q else 45):
+    for _ in range(10 if q else 25):
         h = gen_jitops_program(rng)
         lines = "\n".join(h["pieces"]).split("\n")
         text = "\n".join(l if l.startswith("(define ") else "(displayln %s)" % l for l in lines) + "\n"
@@ -1216,7 +1216,7 @@ def run(ctx):
     # 4e. procedures with 5-9 parameters used several times in one expression (plain operand first, last use inside
     #     an inner call), called through apply / map / as values; and the same compiled procedure serialised or
     #     handed to native threads more than once.  Each at top level and as a module.
-    for label, gen, n in (("manyparams", gen_manyparams_program, 10 if q else 50),
+    for label, gen, n in (("manyparams", gen_manyparams_program, 10 if q else 30),
                           ("sendtwice", gen_sendtwice_program, 5 if q else 24)):
         b = Batch(label)
         b.nospec = True
@@ -1238,7 +1238,7 @@ def run(ctx):
     if True:     # K02n is repaired (f28bc1ca): regression input
         b = Batch("nested-module-calls")
         b.nospec = True
-        for _ in range(6 if q else 36):
+        for _ in range(6 if q else 20):
             h = gen_nested_module_calls(rng)
             path = os.path.join(pm_dir, "nested-%s.scm" % hashlib.sha1(h["module"].encode()).hexdigest()[:12])
             with open(path, "w") as fh:
@@ -1259,7 +1259,7 @@ def run(ctx):
         b.nospec = True
         bm = Batch("tailcall-operands-as-module")
         bm.nospec = True
-        for _ in range(8 if q else 70):
+        for _ in range(8 if q else 40):
             h = gen_tailcall_operand_conditionals(rng)
             stats["features"]["tailcall-operand-conditionals"] = stats["features"].get("tailcall-operand-conditionals", 0) + 1
             b.add(h["pieces"], cls={"text": ""})
@@ -1277,9 +1277,9 @@ def run(ctx):
     #     call/cc escape, error under a caller-side handler) inside small callees an inliner may copy into their
     #     caller; n-ary arithmetic (3-6 operands) on inexact operands of mixed magnitude reached through apply/map
     #     (the order in which a native helper folds its operands).  Each at top level and as a module.
-    for label, gen, n in (("builtin-alias", gen_builtin_alias_history, 6 if q else 45),
-                          ("nonlocal-callee", lambda r: gen_nonlocal_control_callee(r, tail_only="K02p" not in known), 6 if q else 45),
-                          ("float-nary", gen_float_nary_program, 5 if q else 45)):
+    for label, gen, n in (("builtin-alias", gen_builtin_alias_history, 6 if q else 30),
+                          ("nonlocal-callee", lambda r: gen_nonlocal_control_callee(r, tail_only="K02p" not in known), 6 if q else 30),
+                          ("float-nary", gen_float_nary_program, 5 if q else 30)):
         b = Batch(label)
         b.nospec = True
         bm = Batch(label + "-as-module")
@@ -1298,7 +1298,7 @@ def run(ctx):
         ctx.notes.append("return! before the end of a callee not generated: finding K02p is not listed in KNOWN_FINDINGS.txt")
 
     # 5. model histories (lowered-core): the Lean model predicts the value under every configuration inside the guard
-    batches.append(model_hist_batch(rng, 24 if q else 60, stats, ctx))
+    batches.append(model_hist_batch(rng, 24 if q else 40, stats, ctx))
 
     process_many(ctx, batches, configs, values, stats, known)
 
